@@ -52,6 +52,23 @@ PROPS['C11'] = {
     'not_decided': [],
 }
 
+PAY = 'payload::__verif_payload::'
+PROPS['C19'] = {
+    'level': 'proof',
+    'kani': {
+        'files': {'src/payload.rs': ['kani/payload.rs']},
+        'harnesses': [
+            K(PAY, 'frame_parse_len_le_1600', 'Frame::parse == reference dissector written from 802.3/802.1Q for every byte string of length <= 1600 (every ethertype, every TCI, nested tags); Err exactly when truncated; never panics', fns=['payload::Frame::parse']),
+            K(PAY, 'packet_parse_len_le_64', 'Packet::parse == reference written from RFC 791 / RFC 8200 for every byte string of length <= 64', kind='P', fns=['payload::Packet::parse', 'types::Address::read_from_fixed']),
+            K(PAY, 'frame_parse_len_le_65535', 'same, every length the receive buffer can hold', tier='thorough', fns=['payload::Frame::parse']),
+            K(PAY, 'packet_parse_len_le_65535', 'same, every length the receive buffer can hold', tier='thorough', fns=['payload::Packet::parse']),
+        ],
+        'harness_timeout': '60m',
+    },
+    'trusted': [],
+    'not_decided': [],
+}
+
 NOT_APPLICABLE = {
     'C01': 'needs Ed25519 unforgeability plus InitMsg::read_from / InitState::handle_init, which neither back end reaches (150-line TLV parser over Cursor/SmallVec; ring key objects); no contract within reach expresses it',
     'C02': 'pending',
